@@ -49,6 +49,9 @@ func runC16(c *Ctx) {
 	c.ruleWaitWaits("R16.4")
 	// Wait is released only by the Close that won the transition to Closed
 	c.ruleCloseEffectsNeedWin("R16.5")
+	// "Processing for as long as the worker function runs": Finished is stored when the wrapper returns, so the wrapper
+	// runs the user's function synchronously
+	c.ruleWorkerFuncSynchronous("R16.6")
 }
 
 func (c *Ctx) ruleQueuedBeforePublication(rule string) {
@@ -426,6 +429,10 @@ func runC18(c *Ctx) {
 	c.ruleNodeKeptOrRetired("R18.6")
 	// TunePool makes the new limit effective: it stores the limit and only then wakes the dispatcher
 	c.ruleNotifyAfterChange("R18.7")
+	// ... and the dispatcher compares the in-flight count with the limit as it is now, before every hand-off
+	c.ruleDispatcherLoop("R18.8")
+	// "idle that long": the idle time is measured from the moment the worker became idle
+	c.ruleIdleStamp("R18.9")
 	c.Rep.rule("R01.4", "typestate", "Send/Stop/PushNode/Cache.Put on a pool node require ownership (a stopped node that still serves a job, or an idle node that is stopped, breaks the pool accounting)", 6)
 	c.runOwnership("R01.4")
 }
@@ -1160,4 +1167,110 @@ func (c *Ctx) ruleWaitWaits(rule string) {
 		}
 	}
 	c.Rep.check(n > 0, rule, "-", "no Wait method found", "", "job family has Wait methods", "no Wait method of the job family found")
+}
+
+// ruleIdleStamp: with an idle expiry configured, a pool node is stamped with the current time on every path that puts
+// it (back) into the idle list, before it is pushed: the reaper compares that stamp with the expiry, so the stamp must
+// date the beginning of the idle period (a stamp taken at dispatch measures the job's run time instead: a worker
+// whose job ran longer than the expiry is retired the moment it becomes idle).
+func (c *Ctx) ruleIdleStamp(rule string) {
+	R := c.R
+	c.Rep.rule(rule, "E2 path", "freePoolNode: expiry configured ⇒ the node's last-used stamp is set before the node is pushed to the idle list", 1)
+	if R.FreeNode == nil {
+		return
+	}
+	// the stamp: methods of the pool node that store time.Now() in the node
+	stamp := map[string]bool{}
+	for _, f := range c.P.Funcs {
+		if f.Obj == nil || f.Decl == nil || f.Decl.Recv == nil || f.Body == nil || f.Pkg.PkgPath != modPath+"/internal/pool" {
+			continue
+		}
+		if c.P.containsCall(f, "time.Now") {
+			stamp[f.Key] = true
+		}
+	}
+	if len(stamp) == 0 {
+		c.Rep.undecided(rule, "-", "no stamp method", "", "no method of the pool node records time.Now()")
+		return
+	}
+	// the expiry setting: the time.Duration field of the worker configuration
+	expiry := ""
+	if cp := c.P.ByPath[modPath]; cp != nil {
+		if tn, ok := cp.Types.Scope().Lookup("configs").(*types.TypeName); ok {
+			if st, ok := tn.Type().Underlying().(*types.Struct); ok {
+				for i := 0; i < st.NumFields(); i++ {
+					if isNamed(st.Field(i).Type(), "time.Duration") {
+						expiry = modPath + ".configs." + st.Field(i).Name()
+					}
+				}
+			}
+		}
+	}
+	if expiry == "" {
+		c.Rep.undecided(rule, "-", "no expiry setting", "", "the worker configuration has no time.Duration field")
+		return
+	}
+	sr := c.vocab([]string{"push", "stop"}, nil).seq(rule, false)
+	base := sr.classify
+	sr.classify = func(fr *Frame, call *ast.CallExpr, ce *Callee, args []Value) *callEvent {
+		if stamp[ce.Key] {
+			return &callEvent{Name: "stamp", Atomic: true}
+		}
+		return base(fr, call, ce, args)
+	}
+	sr.exprValSt = func(ip *Interp, fr *Frame, st *State, e ast.Expr) (Value, bool) {
+		be, ok := ast.Unparen(e).(*ast.BinaryExpr)
+		if !ok {
+			return Value{}, false
+		}
+		info := fr.Fn.Info()
+		x, y, op := be.X, be.Y, be.Op
+		if selField(info, y) == expiry {
+			x, y = y, x
+			switch op {
+			case token.LSS:
+				op = token.GTR
+			case token.GTR:
+				op = token.LSS
+			case token.LEQ:
+				op = token.GEQ
+			case token.GEQ:
+				op = token.LEQ
+			}
+		}
+		if selField(info, x) != expiry {
+			return Value{}, false
+		}
+		if tv := info.Types[y]; tv.Value == nil || tv.Value.ExactString() != "0" {
+			return Value{}, false
+		}
+		switch op {
+		case token.GTR, token.NEQ:
+			return Value{Kind: VTok, S: "expiry"}, true
+		case token.LEQ, token.EQL:
+			return Value{Kind: VTok, S: "noexpiry"}, true
+		}
+		return Value{}, false
+	}
+	sr.condSym = func(fr *Frame, token, rel string) string {
+		if token == "expiry" || token == "noexpiry" {
+			return token + "=" + rel
+		}
+		return ""
+	}
+	n := 0
+	for _, sg := range sr.segments(R.FreeNode) {
+		if sg.Kind != "path" || !sg.has("push") {
+			continue
+		}
+		n++
+		if sg.has("expiry=false") || sg.has("noexpiry=true") {
+			continue
+		}
+		c.Rep.check(sg.before("stamp", "push"), rule, R.FreeNode.Short(), "node becomes idle without a fresh last-used stamp", sg.End, "stamp, then push to the idle list",
+			"freePoolNode puts a node into the idle list without stamping it first on a path where an idle expiry may be configured ["+strings.Join(sg.Syms, " ")+"]: the reaper then measures the time since an earlier event (the dispatch, or the previous idle period) and retires workers that have not been idle for the configured time")
+	}
+	if n == 0 {
+		c.Rep.undecided(rule, R.FreeNode.Short(), "no path keeps the node", c.P.pos(R.FreeNode.Body), "freePoolNode never pushes the node to the idle list")
+	}
 }
